@@ -6,7 +6,8 @@
    raises on malformed bytes - is an explicit parameter; the fault enumeration (harness/pC20.py)
    establishes HandlersSpec.raises_table and checks every observed class against it.
 
-   On the pinned tree `handler_total raises_table ft` is false for json, json5 and plist (D13 a-c);
+   On the pinned tree `handler_total raises_table ft` is false for json, json5, plist, xml and html
+   (D13 a-d);
    which file types satisfy it is evaluated at run time by the harness, so this file compiles before
    and after the repairs. *)
 From Coq Require Import String List Bool ZArith.
@@ -81,24 +82,31 @@ Theorem C20_total_sound : forall (raises : string -> list string) ft c x,
     reported path (main_on_error pos (handler ft path e)) = false.
 Proof. exact total_false_escape. Qed.
 
-(* instances that hold on the pinned tree and after the repairs *)
+(* unconditional: outside the classes of the open findings (HandlersSpec.known_gap, D13 a-d) every
+   tabulated loader exception of every text format is reported, for either file position *)
+Theorem C20_partial : forall ft e path pos, In ft text_types -> In (e_class e) (raises_table ft) ->
+  known_gap ft (e_class e) = false ->
+  exists m st err,
+    handler ft path e = Message m
+    /\ contains (basename path) m = true
+    /\ main_on_error pos (Message m) = Exit st "" err
+    /\ st <> 0%Z
+    /\ err = render_writes m (me_writes (main_err_of pos))
+    /\ contains (basename path) err = true
+    /\ reported path (main_on_error pos (handler ft path e)) = true.
+Proof. exact HandlersProofs.C20_partial. Qed.
+
+(* an instance that holds on the pinned tree and after the repairs *)
 Theorem C20_yaml : forall e path pos, In (e_class e) (raises_table "yaml") ->
   reported path (main_on_error pos (handler "yaml" path e)) = true.
 Proof. exact yaml_reported. Qed.
-Theorem C20_xml : forall e path pos, In (e_class e) (raises_table "xml") ->
-  reported path (main_on_error pos (handler "xml" path e)) = true.
-Proof. exact xml_reported. Qed.
-Theorem C20_html : forall e path pos, In (e_class e) (raises_table "html") ->
-  reported path (main_on_error pos (handler "html" path e)) = true.
-Proof. exact html_reported. Qed.
 
 Print Assumptions C20_class.
 Print Assumptions C20_ft.
 Print Assumptions C20_all.
+Print Assumptions C20_partial.
 Print Assumptions C20_main_path.
 Print Assumptions C20_escape.
 Print Assumptions C20_message_names_file.
 Print Assumptions C20_total_sound.
 Print Assumptions C20_yaml.
-Print Assumptions C20_xml.
-Print Assumptions C20_html.
